@@ -116,9 +116,10 @@ def menu(M, seen):
         if k >= 2:
             add({"op": "slice_cols", "cols": list(range(k - 1, -1, -1))})
         add({"op": "slice_off_cols", "cols": [0]})
-        for m in sorted({0, 1, n + 1}):
+        for m in sorted({0, 1, n, n + 1}):
             add({"op": "head", "n": m})
-        add({"op": "tail", "n": 1})
+        for m in sorted({0, 1, n, n + 1}):
+            add({"op": "tail", "n": m})
         for nm in names:
             add({"op": "drop_na", "cols": [nm]})
         if k >= 2:
@@ -167,6 +168,14 @@ def menu(M, seen):
             add({"op": "modify", "name": mname, "form": "len1"})
         add({"op": "select", "cols": list(reversed(names))})
         add({"op": "select", "cols": [names[0]]})
+        # calls with nothing to do: no names, no pairs, no other frames
+        add({"op": "select", "cols": []})
+        add({"op": "unselect", "cols": []})
+        add({"op": "rename", "map": {}})
+        add({"op": "noarg", "what": "cbind"})
+        add({"op": "noarg", "what": "rbind"})
+        add({"op": "noarg", "what": "modify"})
+        add({"op": "noarg", "what": "update_empty"})
         add({"op": "unselect", "cols": [names[0]]})
         if k >= 2:
             add({"op": "unselect", "cols": [names[-1]]})  # a single name that may contain another column's name
@@ -386,6 +395,12 @@ def apply_real(d, M, op):
             return d.modify(**{op["name"]: (lambda x: x[first])}), []
         val, _ = value_of(op["form"], n, M)
         return d.modify(**{op["name"]: val}), []
+    if o == "noarg":
+        w = op["what"]
+        if w == "update_empty":
+            e = di.DataFrame()
+            return d.update(e), [e]
+        return getattr(d, w)(), []
     if o == "select":
         return d.select(*op["cols"]), []
     if o == "unselect":
@@ -517,6 +532,8 @@ def apply_model(M, op):
             return M.modify(op["name"], M.get(M.names[0])), flags
         _, mv = value_of(op["form"], n, M)
         return M.modify(op["name"], mv), flags
+    if o == "noarg":
+        return M.copy(), flags
     if o == "select":
         return M.select(op["cols"]), flags
     if o == "unselect":
